@@ -1222,6 +1222,7 @@ func (f *frame) callsiteAsserts(name string, callee *ssa.Function, common *ssa.C
 				env.bound[n] = TV{T: args[i], Ty: goTy(argTypes[i])}
 			}
 		}
+		env.callNames = names
 		if cs.When != nil {
 			g := f.evalClause(Clause{Expr: cs.When, Text: cs.When.String(), Src: cs.Assert.Src}, env)
 			if v, known := staticGuard(g); known {
